@@ -153,18 +153,14 @@ pub fn check_project(schema: &str, files: &[(String, String)], use_loader: bool)
     for (stage, p) in &r.panics {
         out.push((format!("C12|panic|{}|{}", p.site(), p.msg_class()), format!("{stage}: {}", p.msg)));
     }
-    let Some(o) = &r.outputs else {
-        if r.panics.is_empty() {
-            if std::env::var("NQV_DEBUG").is_ok() {
-                for d in r.schema_diags.iter().chain(r.op_diags.iter()).take(1) {
-                    eprintln!("REJECT {} {}", d.kind, d.message);
-                }
-            }
-            return None; // check did not accept: not a case of this property
-        }
+    if r.outputs.is_none() && r.panics.is_empty() && !use_loader {
+        return None; // check did not accept (C04's business) and the loader route, which needs no check, is not taken
+    }
+    if r.outputs.is_none() && !r.panics.is_empty() {
         return Some(out.into_iter().map(|(sig, detail)| Violation { sig, detail, replay: replay.clone() }).collect());
-    };
-    for (i, oo) in o.ops.iter().enumerate() {
+    }
+    let no_ops = vec![];
+    for (i, oo) in r.outputs.as_ref().map(|o| &o.ops).unwrap_or(&no_ops).iter().enumerate() {
         let idx = parsed.iter().position(|(p, _)| *p == oo.path).unwrap_or(i);
         let reference = resolved_reference(&parsed, idx);
         let own = ExecDoc { defs: parsed[idx].1.defs.iter().filter(|d| !matches!(d, ExecDef::Import(_))).cloned().collect() };
